@@ -628,6 +628,8 @@ fn pipeline_b(
     };
     let mut all_names: Vec<String> = Vec::new();
     let mut count = 0usize;
+    // readdir order is not owned by the simulator: collect, then process in name order
+    let mut listed: Vec<pkgsrc::pkgdb::Package> = Vec::new();
     for item in db {
         count += 1;
         ensure!(
@@ -638,10 +640,12 @@ fn pipeline_b(
             pkgs.len()
         );
         ep!(ctx, "PkgDB::next", item.is_ok());
-        let pkg = match item {
-            Ok(p) => p,
-            Err(_) => continue,
-        };
+        if let Ok(p) = item {
+            listed.push(p);
+        }
+    }
+    listed.sort_by(|a, b| a.pkgname().cmp(b.pkgname()));
+    for pkg in listed {
         let _ = (pkg.pkgbase(), pkg.pkgversion());
         all_names.push(clip(pkg.pkgname(), 64).to_string());
         let mut md = Metadata::new();
